@@ -752,6 +752,53 @@ example : ∃ s, State.open 1000 true = .ok s ∧
       [.ok (some 1000), .ok (some 1000), .ok (some 1000), .ok (some 2000)] :=
   ⟨_, rfl, by decide +kernel⟩
 
+/-! ## helper objects (containers, link lists, dimension descriptors) never stamp -/
+
+/-- the classes that stand for an entity kind -/
+def entityClasses : List Cls := Kind.all.map Kind.cls
+
+def helpersOk : Bool :=
+  members.all fun mb =>
+    entityClasses.any (fun c => (mro c).contains mb.cls) || mb.cls == .DimensionLink ||
+    mb.outcomes.all (fun o => o.touch == .none)
+
+/-- (table) the classes that are no entity kind, no base class of one and not `DimensionLink` — the containers,
+link lists, dimension descriptors, data views … — never run the auto-update idiom: none of their methods has a
+path that stamps anything -/
+theorem C19_helpers_never_stamp (mb : Member) (hmb : mb ∈ members)
+    (hne : ∀ k : Kind, mb.cls ∉ mro k.cls) (hnl : mb.cls ≠ .DimensionLink) :
+    ∀ o ∈ mb.outcomes, o.touch = .none := by
+  have hall : helpersOk = true := by decide +kernel
+  simp only [helpersOk, List.all_eq_true, Bool.or_eq_true, List.any_eq_true, beq_iff_eq,
+    List.contains_iff_mem, entityClasses, List.mem_map] at hall
+  rcases hall mb hmb with (⟨c, ⟨k, _, rfl⟩, hc⟩ | h) | h
+  · exact absurd hc (hne k)
+  · exact absurd h hnl
+  · exact h
+
+/-- hence an operation performed through such a helper object on behalf of an entity (appending to or deleting
+from a link list, a setter or link method of a dimension descriptor, …), whichever way it ends, leaves every
+time stamp in the file as it was — under either switch setting -/
+theorem C19_helper_call_unchanged (s : State) (e : Nat) (c : Cls) (m : Mem) (o : Outcome)
+    (h : ∀ mb, resolve c m = some mb → ∀ o' ∈ mb.outcomes, o'.touch = .none) :
+    (step s (.call e (some c) m o)).1 = s := by
+  by_cases ht : o.touch = .none
+  · exact (C19_refused_unchanged s e (some c) m .block o ht).1
+  · simp only [step]
+    split
+    · rfl
+    · split
+      · rfl
+      · rename_i mb hres
+        have hno : o ∉ mb.outcomes := fun hin => ht (h mb hres o hin)
+        split <;> simp [hno]
+
+example : (resolve .LinkContainer .m_append).isSome = true ∧ (resolve .RangeDimension .m_ticks).isSome = true ∧
+    (∀ k : Kind, Cls.LinkContainer ∉ mro k.cls) := by
+  refine ⟨by decide +kernel, by decide +kernel, ?_⟩
+  intro k; cases k <;> decide +kernel
+
+
 /-! ## creation, read from the source -/
 
 /-- (generated creator shapes) for every entity kind, `C.create_new(...)` — the chain of `create_new` class
